@@ -78,13 +78,14 @@ def install(w):
     # reach); the readers they call are verified (contracts/lexer.py)
     w.contract(f"{LX}.Lexer.advance", returns="field:token",
                ensures=["result.kind != TokenKind.COMMENT", "result.kind != TokenKind.SOF",
-                        "0 <= result.start <= result.end"],
+                        "0 <= result.start <= result.end", "result.end <= len(self.source.body)"],
                raises=["GraphQLSyntaxError"],
                modifies=["self.token", "self.last_token", "self.line", "self.line_start",
                          "self.next", "self.prev"],
                assumed=True)
     w.contract(f"{LX}.Lexer.lookahead", returns="obj:Token",
-               ensures=["result.kind != TokenKind.COMMENT", "0 <= result.start <= result.end"],
+               ensures=["result.kind != TokenKind.COMMENT", "0 <= result.start <= result.end",
+                        "result.end <= len(self.source.body)"],
                raises=["GraphQLSyntaxError"],
                modifies=["self.line", "self.line_start", "self.next", "self.prev"],
                assumed=True)
